@@ -50,7 +50,7 @@ func (c *Ctx) roles() *Roles {
 			r.problems = append(r.problems, "exported Muxer method "+fn.Name()+" has no thread role")
 		}
 	}
-	reg := c.Method("", "muxerServer", "registerPath")
+	reg := c.pathTableFn("register")
 	if reg == nil {
 		r.problems = append(r.problems, "(*muxerServer).registerPath not found")
 	} else {
@@ -249,4 +249,40 @@ func goBodies(c *Ctx, fn *ssa.Function) []*ssa.Function {
 		}
 	})
 	return out
+}
+
+// pathTableFn finds the method of muxerServer that registers ("register") or removes ("unregister") a path handler:
+// by its name, or — after a renaming — as the one method of the type that stores a parameter into a map / deletes
+// from a map.
+func (c *Ctx) pathTableFn(kind string) *ssa.Function {
+	name := map[string]string{"register": "registerPath", "unregister": "unregisterPath"}[kind]
+	if m := c.Method("", "muxerServer", name); m != nil {
+		return m
+	}
+	var found []*ssa.Function
+	for _, fn := range c.Funcs {
+		if !InRootPkg(fn) || fn.Parent() != nil || fn.Blocks == nil || fn.Signature.Recv() == nil || !typeIs(fn.Signature.Recv().Type(), modPath, "muxerServer") {
+			continue
+		}
+		hit := false
+		allInstrs(fn, func(in ssa.Instruction) {
+			switch x := in.(type) {
+			case *ssa.MapUpdate:
+				if _, isParam := x.Value.(*ssa.Parameter); isParam && kind == "register" {
+					hit = true
+				}
+			case *ssa.Call:
+				if bi, ok := x.Call.Value.(*ssa.Builtin); ok && bi.Name() == "delete" && kind == "unregister" {
+					hit = true
+				}
+			}
+		})
+		if hit {
+			found = append(found, fn)
+		}
+	}
+	if len(found) == 1 {
+		return found[0]
+	}
+	return nil
 }
